@@ -1,7 +1,7 @@
 (** C07 - the node diff is exactly what a replica needs to synchronise.
     Statements only; proofs are in DiffLinks.v and DiffK.v. *)
 From Coq Require Import List NArith ZArith Bool.
-From Mast Require Import Prim Key Tree KeyOrder Codec Store Diff World Erase Build Spec Canon Links Level Inv Hist Reload DiffSpec DiffLinks DiffOnce DiffCanon DiffK.
+From Mast Require Import Prim Key Tree KeyOrder Codec Store Diff World Erase Build Spec Canon Links Level Inv Hist Reload DiffSpec DiffLinks DiffOnce DiffCanon DiffK WorldInv DiffLinksHist.
 Import ListNotations.
 
 Section GENERIC.
@@ -96,6 +96,19 @@ Theorem C07_at_most_once_k : forall fmt s kind bf (mo mn : kmast) lo ln,
 Proof.
   intros fmt s kind bf. exact (diff_once_canon key val kcmp bytes_eqb (klayer bf) kcmp_eq bytes_eqb_refl (sto fmt s kind) (sto_hered fmt s kind) (sto_fun fmt s kind) bf).
 Qed.
+(** ... in histories: in every reachable world (any number of trees and stores, either node format,
+    persists and reloads; side conditions [conds]) the node diff of any tree against any tree of the same
+    store, key kind and format - or against nothing - reports exactly what separates the two node sets *)
+Theorem C07_in_histories : forall ops tn told trn xn,
+  conds empty_world ([], []) ops ->
+  let w := wrun empty_world ops in let a := awrun2 ([], []) ops in
+  aget (w_trees w) tn = Some trn -> aget (fst a) tn = Some xn -> same_home a tn told ->
+  let o := match told with Some i => option_map t_m (aget (w_trees w) i) | None => None end in
+  oks (diff _ _ kcmp bytes_eqb (layer_of (t_m trn)) o (t_m trn))
+      (fun r => let NN := names_l key val (m_root _ _ (t_m trn)) in let NO := onames key val o in
+                incl (ads key val r) NN /\ incl NN (ads key val r ++ NO) /\ incl (rms key val r) NO /\ incl NO (rms key val r ++ NN)).
+Proof. exact world_diff_links. Qed.
+
 Print Assumptions C07_sound_and_complete.
 Print Assumptions C07_node_diff.
 Print Assumptions C07_replica_sync.
@@ -103,3 +116,4 @@ Print Assumptions C07_at_most_once.
 Print Assumptions C07_names_distinct.
 Print Assumptions C07_first_key_found.
 Print Assumptions C07_at_most_once_k.
+Print Assumptions C07_in_histories.
